@@ -74,9 +74,7 @@ func main() {
 	}
 	c.w.Set("catalogue_size", total)
 	c.special()
-	if *mode == "sqlite" {
-		c.wild(thorough)
-	}
+	c.wild(thorough)
 	c.w.Close()
 }
 
